@@ -176,6 +176,48 @@ pub fn asc_oracle(ctx: &mut Ctx, c: &Case) -> Check {
     }
 }
 
+/// the audio parameters the reader's accessors report for an AAC track of a whole file: they must be
+/// the ones the AudioSpecificConfig encodes, whatever the sample entry's own samplerate field says
+#[derive(Clone, Debug, Serialize, Deserialize)]
+pub struct AccCase {
+    pub object_type: u8,
+    pub freq_index: u8,
+    pub chan: u8,
+    /// upper 16 bits of the mp4a samplerate field (16.16)
+    pub entry_rate: u16,
+}
+
+const FREQS: [u32; 13] = [96000, 88200, 64000, 48000, 44100, 32000, 24000, 22050, 16000, 12000, 11025, 8000, 7350];
+
+pub fn acc_oracle(ctx: &mut Ctx, c: &AccCase) -> Check {
+    use crate::refmp4::movie::{build, Codec};
+    let mut runner = crate::gen::fixed_runner(5);
+    let mut t = crate::gen::draw(&crate::gen::table_track(1, 3), &mut runner);
+    t.codec = Codec::Aac { object_type: c.object_type, freq_index: c.freq_index, chan: c.chan, bitrate: 128_000 };
+    let m = crate::gen::movie_shell(vec![t]);
+    let mut bytes = build(&m).bytes;
+    let Some(p) = bytes.windows(4).position(|w| w == b"mp4a") else { fail!("c05:acc-harness", "no mp4a entry in the reference file") };
+    bytes[p + 28..p + 30].copy_from_slice(&c.entry_rate.to_be_bytes());
+    let asc_freq = FREQS[c.freq_index as usize];
+    ctx.count(if c.entry_rate as u32 == asc_freq & 0xffff { "accessors:entry-rate-equals-asc-frequency" } else if c.entry_rate as u32 == (2 * asc_freq) & 0xffff || c.entry_rate as u32 == 2 * asc_freq { "accessors:entry-rate-twice-the-asc-frequency" } else { "accessors:entry-rate-unrelated" });
+    ctx.nontrivial(crate::engine::fp_of(c));
+    ctx.sample("accessors", c);
+    let r = crate::oracle::open(&bytes)?;
+    let Some(tr) = r.tracks().get(&1) else { fail!("c05:acc-no-track", "track 1 missing") };
+    match crate::engine::guarded("sample_freq_index", || tr.sample_freq_index())? {
+        Ok(f) => ensure!(f as u8 == c.freq_index, "c05:acc-freq-index", "sample_freq_index() = {} but the AudioSpecificConfig encodes index {} (object type {}, entry samplerate {})", f as u8, c.freq_index, c.object_type, c.entry_rate),
+        Err(e) => fail!("c05:acc-freq-index-error", "sample_freq_index() failed for index {}: {}", c.freq_index, e),
+    }
+    match crate::engine::guarded("channel_config", || tr.channel_config())? {
+        Ok(f) => ensure!(f as u8 == c.chan, "c05:acc-channel-config", "channel_config() = {} but the AudioSpecificConfig encodes {} (object type {}, entry samplerate {})", f as u8, c.chan, c.object_type, c.entry_rate),
+        Err(e) => fail!("c05:acc-channel-config-error", "channel_config() failed for configuration {}: {}", c.chan, e),
+    }
+    if let Ok(p) = crate::engine::guarded("audio_profile", || tr.audio_profile())? {
+        ensure!(p as u8 == c.object_type, "c05:acc-object-type", "audio_profile() = {} but the AudioSpecificConfig encodes object type {}", p as u8, c.object_type);
+    }
+    Ok(())
+}
+
 pub fn run(ctx: &mut Ctx) {
     let (k, maxlen) = ctx.pick((3000u32, 2usize), (40000u32, 3usize));
     for kind in KINDS {
@@ -203,9 +245,43 @@ pub fn run(ctx: &mut Ctx) {
         }
     }
     ctx.extra.insert("asc_product_cases".into(), serde_json::json!(idx));
+    // whole files: object type x frequency index x channel configuration x the sample entry's own
+    // samplerate (equal to / twice / half / unrelated to the configured frequency)
+    ctx.stage("api-accessors");
+    let mut idx = 0u64;
+    for aot in [1u8, 2, 3, 4, 5, 6, 17, 23, 29] {
+        for fi in 0u8..=12 {
+            for ch in 1u8..=7 {
+                for mode in 0u8..5 {
+                    let my = idx;
+                    idx += 1;
+                    if !ctx.enter(my) {
+                        continue;
+                    }
+                    let f = FREQS[fi as usize];
+                    let entry_rate = match mode {
+                        0 => f,
+                        1 => 2 * f,
+                        2 => f / 2,
+                        3 => 0,
+                        _ => 44100 + my as u32 % 977,
+                    } as u16;
+                    let c = AccCase { object_type: aot, freq_index: fi, chan: ch, entry_rate };
+                    ctx.pre_case(&c);
+                    let res = acc_oracle(ctx, &c);
+                    ctx.judge(&c, res);
+                }
+            }
+        }
+    }
+    ctx.extra.insert("api_accessor_cases".into(), serde_json::json!(idx));
 }
 
 pub fn replay(ctx: &mut Ctx, stage: &str, case: &Value) -> Check {
+    if stage == "api-accessors" {
+        let c: AccCase = serde_json::from_value(case.clone()).map_err(|e| Failure::new("replay:bad-case", e.to_string()))?;
+        return acc_oracle(ctx, &c);
+    }
     let c: Case = serde_json::from_value(case.clone()).map_err(|e| Failure::new("replay:bad-case", e.to_string()))?;
     if stage == "asc" {
         asc_oracle(ctx, &c)
